@@ -27,7 +27,6 @@ from moclo.regex import DNARegex  # noqa: E402,F401
 from moclo import errors  # noqa: E402,F401
 from moclo.core import (  # noqa: E402,F401
     AbstractModule, AbstractVector, AbstractPart)
-from moclo.core import modules as core_modules, vectors as core_vectors, parts as core_parts  # noqa: E402,F401
 
 KIT_NAMES = ["cidar", "ytk", "ecoflex", "moclo", "plant"]
 
